@@ -35,9 +35,22 @@ Proof. intros H. cbn [aq_loop]. rewrite H. reflexivity. Qed.
 Lemma aq_stop f i am u : (i <? 64) = false -> aq_loop (S f) i am u = (am, u).
 Proof. intros H. cbn [aq_loop]. rewrite H. reflexivity. Qed.
 
-Lemma pow64_even y : eqm W64 ((2 * y) ^ 64) 0.
+(* one turn of the loop: am <- am^2, u <- u (am^2 + 1), as congruences modulo 2^64 *)
+Lemma aq_upd x am u e z : 0 <= e ->
+  eqm W64 am (2 ^ e * z) -> eqm W64 ((1 - x * x) * u) (1 - am * am) ->
+  eqm W64 (u64 (u64 (u64 (am * am) + 1) - 1)) (2 ^ (2 * e) * (z * z)) /\
+  eqm W64 ((1 - x * x) * u64 (u * u64 (u64 (am * am) + 1)))
+          (1 - u64 (u64 (u64 (am * am) + 1) - 1) * u64 (u64 (u64 (am * am) + 1) - 1)).
 Proof.
-  rewrite Z.pow_mul_l. change (2 ^ 64) with W64. apply eqm_mul_n_l.
+  intros He Ham Hu.
+  assert (E1 : eqm W64 (u64 (u64 (u64 (am * am) + 1) - 1)) (am * am)).
+  { rewrite u64_eqm. rewrite u64_eqm. rewrite u64_eqm. replace (am * am + 1 - 1) with (am * am) by ring. reflexivity. }
+  split.
+  - rewrite E1. rewrite Ham. replace (2 * e) with (e + e) by ring. rewrite Z.pow_add_r by lia.
+    replace (2 ^ e * z * (2 ^ e * z)) with (2 ^ e * 2 ^ e * (z * z)) by ring. reflexivity.
+  - rewrite E1. rewrite u64_eqm. rewrite u64_eqm. rewrite u64_eqm.
+    replace ((1 - x * x) * (u * (am * am + 1))) with ((1 - x * x) * u * (am * am + 1)) by ring.
+    rewrite Hu. replace ((1 - am * am) * (am * am + 1)) with (1 - am * am * (am * am)) by ring. reflexivity.
 Qed.
 
 Lemma arazi_qi_64_spec a : 0 <= a < W64 -> Z.odd a = true ->
@@ -46,30 +59,515 @@ Proof.
   intros Ha Ho. unfold arazi_qi_64. destruct (Z.eqb_spec a 1) as [->|N].
   - split; [unfold W64; lia | reflexivity].
   - split; [unfold u64; apply Z.mod_pos_bound; reflexivity|].
-    rewrite aq_step by reflexivity. rewrite aq_step by reflexivity. rewrite aq_step by reflexivity.
-    rewrite aq_step by reflexivity. rewrite aq_step by reflexivity. rewrite aq_stop by reflexivity.
-    cbn [snd]. transitivity (1 mod W64); [|reflexivity].
+    destruct (odd_succ_double a Ho) as [y Ey].
+    pose (x := a - 1).
+    assert (H0 : eqm W64 (u64 (a - 1)) (2 ^ 1 * y)).
+    { rewrite u64_eqm. rewrite Ey. replace (2 * y + 1 - 1) with (2 ^ 1 * y) by ring. reflexivity. }
+    assert (U0 : eqm W64 ((1 - x * x) * 1) (1 - u64 (a - 1) * u64 (a - 1))).
+    { rewrite u64_eqm. unfold x. rewrite Z.mul_1_r. reflexivity. }
+    generalize dependent (u64 (a - 1)). intros am0 H0 U0.
+    rewrite aq_step by reflexivity.
+    destruct (aq_upd x am0 1 1 y ltac:(lia) H0 U0) as [H1 U1].
+    generalize dependent (u64 (u64 (u64 (am0 * am0) + 1) - 1)). generalize (u64 (1 * u64 (u64 (am0 * am0) + 1))).
+    intros u1 am1 H1 U1. clear H0 U0.
+    rewrite aq_step by reflexivity.
+    match type of H1 with eqm _ _ (2 ^ ?e * ?z) => destruct (aq_upd x am1 u1 e z ltac:(lia) H1 U1) as [H2 U2] end.
+    generalize dependent (u64 (u64 (u64 (am1 * am1) + 1) - 1)). generalize (u64 (u1 * u64 (u64 (am1 * am1) + 1))).
+    intros u2 am2 H2 U2. clear H1 U1.
+    rewrite aq_step by reflexivity.
+    match type of H2 with eqm _ _ (2 ^ ?e * ?z) => destruct (aq_upd x am2 u2 e z ltac:(lia) H2 U2) as [H3 U3] end.
+    generalize dependent (u64 (u64 (u64 (am2 * am2) + 1) - 1)). generalize (u64 (u2 * u64 (u64 (am2 * am2) + 1))).
+    intros u3 am3 H3 U3. clear H2 U2.
+    rewrite aq_step by reflexivity.
+    match type of H3 with eqm _ _ (2 ^ ?e * ?z) => destruct (aq_upd x am3 u3 e z ltac:(lia) H3 U3) as [H4 U4] end.
+    generalize dependent (u64 (u64 (u64 (am3 * am3) + 1) - 1)). generalize (u64 (u3 * u64 (u64 (am3 * am3) + 1))).
+    intros u4 am4 H4 U4. clear H3 U3.
+    rewrite aq_step by reflexivity.
+    match type of H4 with eqm _ _ (2 ^ ?e * ?z) => destruct (aq_upd x am4 u4 e z ltac:(lia) H4 U4) as [H5 U5] end.
+    generalize dependent (u64 (u64 (u64 (am4 * am4) + 1) - 1)). generalize (u64 (u4 * u64 (u64 (am4 * am4) + 1))).
+    intros u5 am5 H5 U5. clear H4 U4.
+    rewrite aq_stop by reflexivity. cbn [snd].
+    transitivity (1 mod W64); [|reflexivity].
     match goal with |- ?L mod W64 = 1 mod W64 => change (eqm W64 L 1) end.
-    rewrite !u64_eqm.
-    destruct (odd_succ_double a Ho) as [y ->].
-    replace (2 * y + 1 - 1) with (2 * y) by ring.
-    set (x := 2 * y).
-    assert (Hx : eqm W64 (x ^ 64) 0) by (unfold x; apply pow64_even).
-    clearbody x.
-    remember (x * x) as A1 eqn:E1.
-    replace (A1 + 1 - 1) with A1 by ring. remember (A1 * A1) as A2 eqn:E2.
-    replace (A2 + 1 - 1) with A2 by ring. remember (A2 * A2) as A3 eqn:E3.
-    replace (A3 + 1 - 1) with A3 by ring. remember (A3 * A3) as A4 eqn:E4.
-    replace (A4 + 1 - 1) with A4 by ring. remember (A4 * A4) as A5 eqn:E5.
-    assert (T0 : (x + 1) * (1 - x) = 1 - A1) by (subst A1; ring).
-    assert (T1 : (1 - A1) * (A1 + 1) = 1 - A2) by (subst A2; ring).
-    assert (T2 : (1 - A2) * (A2 + 1) = 1 - A3) by (subst A3; ring).
-    assert (T3 : (1 - A3) * (A3 + 1) = 1 - A4) by (subst A4; ring).
-    assert (T4 : (1 - A4) * (A4 + 1) = 1 - A5) by (subst A5; ring).
-    assert (T5 : (1 - A5) * (A5 + 1) = 1 - x ^ 64).
-    { replace (x ^ 64) with (A5 * A5); [ring|]. subst A5 A4 A3 A2 A1. ring. }
-    replace (2 - (x + 1)) with (1 - x) by ring.
-    match goal with |- eqm _ ?L _ =>
-      replace L with ((x + 1) * (1 - x) * (A1 + 1) * (A2 + 1) * (A3 + 1) * (A4 + 1) * (A5 + 1)) by ring end.
-    rewrite T0, T1, T2, T3, T4, T5. rewrite Hx. reflexivity.
+    rewrite u64_eqm. rewrite u64_eqm.
+    replace (a * (u5 * (2 - a))) with ((1 - x * x) * u5) by (unfold x; ring).
+    rewrite U5. rewrite H5.
+    replace (2 ^ (2 * (2 * (2 * (2 * (2 * 1))))) * (y * y * (y * y) * (y * y * (y * y)) * (y * y * (y * y) * (y * y * (y * y)))
+                * (y * y * (y * y) * (y * y * (y * y)) * (y * y * (y * y) * (y * y * (y * y))))))
+      with (2 ^ 32 * (y ^ 32)) by (change (2 * (2 * (2 * (2 * (2 * 1))))) with 32; ring).
+    replace (2 ^ 32 * y ^ 32 * (2 ^ 32 * y ^ 32)) with (W64 * (y ^ 32 * y ^ 32)) by (unfold W64; ring).
+    rewrite (eqm_mul_n_l W64). reflexivity.
 Qed.
+
+
+(* ------------------------------------------------------------------ arazi_qi, every K (Hensel step on halves) *)
+Lemma odd_mod_even a b h : b = 2 * h -> 0 < b -> Z.odd (a mod b) = Z.odd a.
+Proof.
+  intros Hb Hpos. rewrite (Z.div_mod a b) at 2 by lia.
+  rewrite Z.odd_add. rewrite Hb at 2. rewrite <- Z.mul_assoc. rewrite Z.odd_mul. cbn [Z.odd andb xorb].
+  destruct (Z.odd (a mod b)); reflexivity.
+Qed.
+
+Theorem arazi_qi_spec k : forall a, 0 <= a < Bk k -> Z.odd a = true ->
+  0 <= arazi_qi k a < Bk k /\ (a * arazi_qi k a) mod Bk k = 1.
+Proof.
+  induction k as [|k IH]; intros a Ha Ho.
+  - rewrite Bk_0 in *. apply arazi_qi_64_spec; assumption.
+  - cbn [arazi_qi]. cbv zeta. rewrite Bk_S in *.
+    set (b := Bk k) in *. pose proof (Bk_pos k) as Hb1. fold b in Hb1.
+    destruct (Bk_even k) as [h Hh]. fold b in Hh.
+    set (aL := a mod b). set (aH := (a / b) mod b).
+    assert (HaL : 0 <= aL < b) by (apply Z.mod_pos_bound; lia).
+    assert (HaHq : 0 <= a / b < b) by (split; [apply Z.div_pos; lia | apply Z.div_lt_upper_bound; lia]).
+    assert (EaH : aH = a / b) by (apply Z.mod_small; exact HaHq).
+    assert (Ea : a = aL + b * aH) by (rewrite EaH; unfold aL; rewrite (Z.div_mod a b) at 1 by lia; ring).
+    assert (HoL : Z.odd aL = true) by (unfold aL; rewrite (odd_mod_even a b h Hh) by lia; exact Ho).
+    destruct (IH aL HaL HoL) as [HuL EuL].
+    set (uL := arazi_qi k aL) in *.
+    set (t1 := (uL * aL) / b).
+    assert (E1 : uL * aL = b * t1 + 1).
+    { unfold t1. rewrite (Z.div_mod (uL * aL) b) at 1 by lia. rewrite (Z.mul_comm uL aL). rewrite EuL. reflexivity. }
+    set (T := ((t1 + (uL * aH) mod b) mod b * uL) mod b).
+    set (uH := (- T) mod b).
+    assert (HuH : 0 <= uH < b) by (apply Z.mod_pos_bound; lia).
+    split; [nia|].
+    (* S = t1 + aH uL + aL uH is a multiple of b *)
+    assert (HS : eqm b (t1 + aH * uL + aL * uH) 0).
+    { unfold uH, T. rewrite (mod_eqm b (- _)). rewrite (mod_eqm b (_ * uL)). rewrite (mod_eqm b (t1 + _)).
+      rewrite (mod_eqm b (uL * aH)).
+      replace (t1 + aH * uL + aL * - ((t1 + uL * aH) * uL)) with ((t1 + aH * uL) * (1 - uL * aL)) by ring.
+      rewrite E1. replace (1 - (b * t1 + 1)) with (b * (- t1)) by ring. rewrite (eqm_mul_n_l b (- t1)).
+      rewrite Z.mul_0_r. reflexivity. }
+    unfold eqm in HS. rewrite Z.mod_0_l in HS by lia.
+    apply Z.mod_divide in HS; [|lia]. destruct HS as [q Hq].
+    rewrite Ea at 1.
+    replace ((aL + b * aH) * (uL + b * uH)) with (uL * aL + b * (t1 + aH * uL + aL * uH) - b * t1 + b * b * (aH * uH)) by ring.
+    rewrite E1, Hq.
+    replace (b * t1 + 1 + b * (q * b) - b * t1 + b * b * (aH * uH)) with (1 + (q + aH * uH) * (b * b)) by ring.
+    rewrite Z.mod_add by nia. apply Z.mod_small. nia.
+Qed.
+
+(* ------------------------------------------------------------------ wrap-around facts for a radix B *)
+Section Wrap.
+  Variable B : Z.
+  Hypothesis HB : 0 < B.
+  Lemma modB_small z : 0 <= z < B -> z mod B = z.
+  Proof. apply Z.mod_small. Qed.
+  Lemma modB_neg z : - B <= z < 0 -> z mod B = z + B.
+  Proof. intros H. symmetry. apply (Z.mod_unique z B (-1)); [left; lia | ring]. Qed.
+  Lemma modB_big z : B <= z < 2 * B -> z mod B = z - B.
+  Proof. intros H. symmetry. apply (Z.mod_unique z B 1); [left; lia | ring]. Qed.
+End Wrap.
+
+(* ------------------------------------------------------------------ inv_mod (ruinvmod.h) *)
+Section InvMod.
+  Variables B c b0 : Z.
+  Hypothesis HB : 0 < B.
+  Hypothesis Hc : 1 < c < B.
+
+  Definition iinv (s : ist) : Prop :=
+    0 <= i_a s < c /\ 0 <= i_x s < c /\ 0 <= i_b2 s /\ 0 <= i_a2 s /\
+    eqm c (i_a s * b0) (i_a2 s) /\ eqm c (i_x s * b0) (i_b2 s) /\ Z.gcd (i_a2 s) (i_b2 s) = Z.gcd b0 c.
+
+  Lemma inv_step_done s : i_b2 s = 0 -> inv_step B c s = s.
+  Proof. intros E. unfold inv_step. rewrite E. reflexivity. Qed.
+
+  Lemma inv_step_inv s : iinv s -> i_b2 s <> 0 ->
+    iinv (inv_step B c s) /\ i_b2 (inv_step B c s) < i_b2 s.
+  Proof.
+    intros (Ha & Hx & Hb2 & Ha2 & Ea & Ex & Eg) Hnz. unfold inv_step.
+    destruct (Z.eqb_spec (i_b2 s) 0) as [E|_]; [contradiction|]. cbv zeta.
+    set (q := i_a2 s / i_b2 s). set (r := i_a2 s mod i_b2 s).
+    assert (Hr : 0 <= r < i_b2 s) by (apply Z.mod_pos_bound; lia).
+    assert (Edm : i_a2 s = i_b2 s * q + r) by (apply Z.div_mod; lia).
+    set (t0 := (q * i_x s) mod c).
+    assert (Ht0 : 0 <= t0 < c) by (apply Z.mod_pos_bound; lia).
+    set (t1 := if t0 =? 0 then t0 else (c - t0) mod B).
+    assert (Ht1 : 0 <= t1 < c /\ eqm c t1 (- (q * i_x s))).
+    { unfold t1. destruct (Z.eqb_spec t0 0) as [E0|N0].
+      - split; [lia|]. rewrite E0. unfold t0 in E0. symmetry.
+        unfold eqm. rewrite Z.mod_0_l by lia. rewrite <- Z.sub_0_l. rewrite Zminus_mod. rewrite E0. reflexivity.
+      - rewrite (modB_small B) by lia. split; [lia|]. unfold t0. rewrite (mod_eqm c (q * i_x s)).
+        replace (c - q * i_x s) with (c * 1 + - (q * i_x s)) by ring. rewrite (eqm_mul_n_l c 1). reflexivity. }
+    destruct Ht1 as [Ht1 Et1].
+    set (sm := t1 + i_a s).
+    set (t2 := sm mod B).
+    set (t3 := if (B <=? sm) || (c <=? t2) then (t2 - c) mod B else t2).
+    assert (Ht3 : 0 <= t3 < c /\ eqm c t3 (t1 + i_a s)).
+    { unfold t3, t2. destruct (Z.leb_spec B sm) as [H1|H1]; cbn [orb].
+      - rewrite (modB_big B sm) by (unfold sm in *; lia).
+        rewrite (modB_neg B) by (unfold sm in *; lia).
+        split; [unfold sm in *; lia|]. fold sm. replace (sm - B - c + B) with (sm - c * 1) by ring.
+        rewrite (eqm_mul_n_l c 1). rewrite Z.sub_0_r. reflexivity.
+      - rewrite (modB_small B sm) by (unfold sm in *; lia). destruct (Z.leb_spec c sm) as [H2|H2].
+        + rewrite (modB_small B) by (unfold sm in *; lia). split; [unfold sm in *; lia|]. fold sm.
+          replace (sm - c) with (sm - c * 1) by ring. rewrite (eqm_mul_n_l c 1). rewrite Z.sub_0_r. reflexivity.
+        + split; [unfold sm in *; lia | reflexivity]. }
+    destruct Ht3 as [Ht3 Et3].
+    cbn [i_a i_x i_a2 i_b2]. split; [|lia].
+    unfold iinv. cbn [i_a i_x i_a2 i_b2].
+    split; [exact Hx|]. split; [exact Ht3|]. split; [lia|]. split; [exact Hb2|]. split; [exact Ex|]. split.
+    - rewrite Et3, Et1. replace ((- (q * i_x s) + i_a s) * b0) with (i_a s * b0 - q * (i_x s * b0)) by ring.
+      rewrite Ea, Ex. replace (i_a2 s - q * i_b2 s) with r by lia. reflexivity.
+    - rewrite <- Eg. unfold r. rewrite Z.gcd_comm. rewrite Z.gcd_mod by lia. apply Z.gcd_comm.
+  Qed.
+
+  (* inv_iter n performs the loop: if it does not finish, b2 went down by at least 2^n *)
+  Lemma inv_iter_spec n : forall s, iinv s ->
+    iinv (inv_iter n B c s) /\
+    (i_b2 (inv_iter n B c s) = 0 \/ i_b2 (inv_iter n B c s) + 2 ^ Z.of_nat n <= i_b2 s).
+  Proof.
+    induction n as [|n IH]; intros s Hs.
+    - cbn [inv_iter]. destruct (Z.eqb_spec (i_b2 s) 0) as [E|N]; [split; [exact Hs | left; exact E]|].
+      destruct (inv_step_inv s Hs N) as [H1 H2]. split; [exact H1|]. right. change (2 ^ Z.of_nat 0) with 1. lia.
+    - cbn [inv_iter]. destruct (Z.eqb_spec (i_b2 s) 0) as [E|N]; [split; [exact Hs | left; exact E]|].
+      destruct (IH s Hs) as [H1 D1]. destruct (IH _ H1) as [H2 D2]. split; [exact H2|].
+      rewrite Nat2Z.inj_succ. rewrite Z.pow_succ_r by lia.
+      destruct D2 as [D2|D2]; [left; exact D2|]. destruct D1 as [D1|D1].
+      + left. destruct H2 as (_ & _ & Hnn & _). destruct H1 as (_ & _ & Hnn1 & _).
+        assert (0 < 2 ^ Z.of_nat n) by (apply Z.pow_pos_nonneg; lia). lia.
+      + right. lia.
+  Qed.
+
+  Hypothesis Hb0 : 0 <= b0 < c.
+  Hypothesis Hg : Z.gcd b0 c = 1.
+
+  Theorem inv_mod_spec : 0 <= inv_mod B b0 c < c /\ (inv_mod B b0 c * b0) mod c = 1.
+  Proof.
+    unfold inv_mod.
+    assert (H0 : iinv (MkIst 1 0 b0 c)).
+    { unfold iinv. cbn [i_a i_x i_a2 i_b2]. repeat split; try lia.
+      - rewrite Z.mul_1_l. reflexivity.
+      - rewrite Z.mul_0_l. symmetry. apply eqm_n. }
+    destruct (inv_iter_spec (Z.to_nat (Z.log2_up B)) _ H0) as [H1 D].
+    set (s := inv_iter (Z.to_nat (Z.log2_up B)) B c (MkIst 1 0 b0 c)) in *.
+    assert (Hdone : i_b2 s = 0).
+    { destruct D as [D|D]; [exact D|]. cbn [i_b2] in D. exfalso.
+      rewrite Z2Nat.id in D by apply Z.log2_up_nonneg.
+      pose proof (Z.log2_up_spec B ltac:(lia)) as [_ Hl]. destruct H1 as (_ & _ & Hnn & _). lia. }
+    destruct H1 as (Ha & _ & _ & Ha2 & Ea & _ & Eg).
+    rewrite Hdone in Eg. rewrite Z.gcd_0_r in Eg. rewrite Hg in Eg. rewrite Z.abs_eq in Eg by lia.
+    split; [exact Ha|]. rewrite <- (Z.mod_1_l c) by lia. change (eqm c (i_a s * b0) 1). rewrite Ea, Eg. reflexivity.
+  Qed.
+End InvMod.
+
+(* ------------------------------------------------------------------ reduction and the shared add/sub/neg bodies *)
+Definition canon (p a : Z) : Prop := 0 <= a < p.
+
+Section MontRec.
+  Variable k : nat.
+  Variables p p1 : Z.
+  Local Notation B := (Bk k).
+  Hypothesis Hp : 1 < p < B.
+  Hypothesis Hp1 : (p * p1 + 1) mod B = 0.
+  Local Notation fm := (from_mg B p p1).
+  Local Notation red := (reduction k p p1).
+  Local Notation can := (canon p).
+
+  Let HB : 0 < B. Proof. pose proof (Bk_pos k). lia. Qed.
+  Let Hp0 : 0 < p. Proof. lia. Qed.
+
+  Theorem reduction_fm a : 0 <= a < p * B -> red a = fm a.
+  Proof.
+    intros Ha. transitivity (redc_z B p p1 a); [|exact (redc_z_spec B p p1 HB Hp0 Hp1 a Ha)].
+    pose proof (redc_t_range B p p1 HB Hp0 Hp1 a Ha) as HT.
+    pose proof (redc_t_B B p p1 HB Hp1 a) as ET.
+    unfold reduction, redc_z. cbv zeta. fold (mfac B p1 a).
+    set (T := redc_t B p p1 a) in *.
+    replace (mfac B p1 a * p + a) with (T * B) by (rewrite ET; ring).
+    rewrite Z.div_mul by lia.
+    destruct (Z.leb_spec B T) as [H1|H1].
+    - assert (E : (B * B <=? T * B) = true) by (apply Z.leb_le; nia). rewrite E. cbn [orb].
+      rewrite (modB_big B T) by lia. rewrite (modB_neg B) by lia.
+      destruct (Z.leb_spec p T); lia.
+    - assert (E : (B * B <=? T * B) = false) by (apply Z.leb_gt; nia). rewrite E. cbn [orb].
+      rewrite (modB_small B T) by lia.
+      destruct (Z.leb_spec p T); [apply modB_small; lia | reflexivity].
+  Qed.
+
+  Lemma fm_can c : can (fm c). Proof. apply from_mg_range. exact Hp0. Qed.
+  Lemma mod_can z : can (z mod p). Proof. apply Z.mod_pos_bound. exact Hp0. Qed.
+
+  Lemma red_can_fm a : can a -> red a = fm a.
+  Proof. intros Ha. apply reduction_fm. unfold canon in Ha. nia. Qed.
+  Lemma red_mul_fm a b : can a -> can b -> red (a * b) = fm (a * b).
+  Proof. intros Ha Hb. apply reduction_fm. unfold canon in *. nia. Qed.
+  Lemma red_word_fm a : 0 <= a < B -> red a = fm a.
+  Proof. intros Ha. apply reduction_fm. nia. Qed.
+
+  Lemma rm_add_raw b c : can b -> can c -> rm_add k p b c = (b + c) mod p.
+  Proof.
+    intros Hb Hc. unfold canon in *. unfold rm_add. cbv zeta. rewrite (add_mod_cases p b c Hb Hc).
+    destruct (Z.leb_spec B (b + c)) as [H1|H1]; cbn [orb].
+    - rewrite (modB_big B (b + c)) by lia. rewrite (modB_neg B) by lia. destruct (Z.ltb_spec (b + c) p); lia.
+    - rewrite (modB_small B (b + c)) by lia. destruct (Z.leb_spec p (b + c)); destruct (Z.ltb_spec (b + c) p); try lia.
+      apply modB_small. lia.
+  Qed.
+  Lemma rm_sub_raw b c : can b -> can c -> rm_sub k p b c = (b - c) mod p.
+  Proof.
+    intros Hb Hc. unfold canon in *. unfold rm_sub. rewrite (sub_mod_cases p b c Hb Hc).
+    destruct (Z.ltb_spec b c); destruct (Z.leb_spec c b); try lia.
+    - rewrite (modB_small B (p - c)) by lia. apply modB_small. lia.
+    - apply modB_small. lia.
+  Qed.
+  Lemma rm_subin_raw b c : can b -> can c -> rm_subin k p b c = (b - c) mod p.
+  Proof.
+    intros Hb Hc. unfold canon in *. unfold rm_subin. rewrite (sub_mod_cases p b c Hb Hc).
+    destruct (Z.ltb_spec b c); destruct (Z.leb_spec c b); try lia.
+    - rewrite (modB_small B (p - c)) by lia. rewrite modB_small by lia. ring.
+    - apply modB_small. lia.
+  Qed.
+  Lemma rm_neg_raw b : can b -> rm_neg k p b = (- b) mod p.
+  Proof.
+    intros Hb. unfold canon in *. unfold rm_neg. rewrite (opp_mod_cases p b Hb).
+    destruct (Z.eqb_spec b 0); [reflexivity|]. apply modB_small. lia.
+  Qed.
+
+  (* the value of a stored element, and the operations on values *)
+  Lemma fm_fm_mul a b : fm (fm (a * b)) = (fm a * fm b) mod p.
+  Proof. exact (from_mg_mul B p p1 a b). Qed.
+  Lemma fm_add a b : fm ((a + b) mod p) = (fm a + fm b) mod p. Proof. apply from_mg_add. Qed.
+  Lemma fm_sub a b : fm ((a - b) mod p) = (fm a - fm b) mod p. Proof. apply from_mg_sub. Qed.
+  Lemma fm_opp a : fm ((- a) mod p) = (- fm a) mod p. Proof. apply from_mg_opp. Qed.
+  Lemma fm_to_mg x : fm ((x * B) mod p) = x mod p.
+  Proof. exact (from_to B p p1 HB Hp1 x). Qed.
+  Lemma BBi : eqm p (B * Binv B p p1) 1. Proof. apply B_Binv_eqm; assumption. Qed.
+  Lemma fm_inj a b : can a -> can b -> fm a = fm b -> a = b.
+  Proof. apply (from_mg_inj B p p1 HB Hp1). Qed.
+  Lemma fm_small_mod x : fm x mod p = fm x.
+  Proof. apply Z.mod_small. apply fm_can. Qed.
+End MontRec.
+
+(* ------------------------------------------------------------------ the module constants: p1 = -1/p mod B, r = B mod p *)
+Definition RecMod (k : nat) (p : Z) : Prop := Z.odd p = true /\ 1 < p < Bk k.
+
+Example RecMod_satisfiable : RecMod 3 (Bk 3 - 1).
+Proof. split; [vm_compute; reflexivity | split; [vm_compute; reflexivity | lia]]. Qed.
+
+Lemma neg_mod_B k p : 1 < p < Bk k -> (- p) mod Bk k = Bk k - p.
+Proof. intros H. rewrite modB_neg by lia. ring. Qed.
+
+Lemma p1_spec k p : RecMod k p ->
+  0 <= arazi_qi k ((- p) mod Bk k) < Bk k /\ (p * arazi_qi k ((- p) mod Bk k) + 1) mod Bk k = 0.
+Proof.
+  intros [Ho Hp]. rewrite (neg_mod_B k p Hp). destruct (Bk_even k) as [h Hh].
+  assert (Hodd : Z.odd (Bk k - p) = true).
+  { rewrite Z.odd_sub. rewrite Hh. rewrite Z.odd_mul. rewrite Ho. reflexivity. }
+  destruct (arazi_qi_spec k (Bk k - p) ltac:(lia) Hodd) as [Hr E]. split; [exact Hr|].
+  set (u := arazi_qi k (Bk k - p)) in *.
+  transitivity (0 mod Bk k); [|apply Z.mod_0_l; lia].
+  change (eqm (Bk k) (p * u + 1) 0).
+  replace (p * u + 1) with (Bk k * u - (Bk k - p) * u + 1) by ring.
+  rewrite (eqm_mul_n_l (Bk k) u).
+  assert (E' : eqm (Bk k) ((Bk k - p) * u) 1) by (unfold eqm; rewrite E; symmetry; apply Z.mod_1_l; lia).
+  rewrite E'. reflexivity.
+Qed.
+
+Lemma r_spec k p : 1 < p < Bk k -> ((- p) mod Bk k) mod p = Bk k mod p.
+Proof.
+  intros Hp. rewrite (neg_mod_B k p Hp). change (eqm p (Bk k - p) (Bk k)).
+  replace (Bk k - p) with (Bk k - p * 1) by ring. rewrite (eqm_mul_n_l p 1). rewrite Z.sub_0_r. reflexivity.
+Qed.
+
+Definition Module_constants_stmt : Prop := forall k p, RecMod k p ->
+  let B := Bk k in
+  let M := mga_init_module k p in
+  let R := mr_mk k p in
+  (g_p M = p /\ 0 <= g_p1 M < B /\ (p * g_p1 M + 1) mod B = 0 /\ g_r M = B mod p) /\
+  (g_p R = p /\ g_p1 R = g_p1 M /\ g_r R = B mod p /\ g_r2 R = (B * B) mod p /\ g_r3 R = (B * B * B) mod p /\
+   g_one R = B mod p /\ g_mOne R = p - B mod p /\ B mod p <> 0).
+
+Lemma gcd_fm B p p1 b : 1 < p -> eqm p (B * Binv B p p1) 1 -> Z.gcd b p = 1 -> Z.gcd (from_mg B p p1 b) p = 1.
+Proof.
+  intros Hp H Hg. unfold from_mg. rewrite Z.gcd_mod by lia. apply Zgcd_1_rel_prime. apply rel_prime_mult.
+  - apply rel_prime_sym. apply Zgcd_1_rel_prime. exact Hg.
+  - apply bezout_rel_prime. unfold eqm in H. rewrite Z.mod_1_l in H by lia.
+    pose proof (Z.div_mod (B * Binv B p p1) p ltac:(lia)) as D. rewrite H in D.
+    apply (Bezout_intro _ _ _ (- ((B * Binv B p p1) / p)) B). rewrite D at 2. ring.
+Qed.
+
+(* ------------------------------------------------------------------ square-and-multiply loops *)
+Section PowLoop.
+  Variables (p : Z) (mul : Z -> Z -> Z) (V : Z -> Z) (can : Z -> Prop).
+  Hypothesis Hp : 1 < p.
+  Hypothesis HV : forall a, can a -> 0 <= V a < p.
+  Hypothesis Hmul : forall a b, can a -> can b -> can (mul a b) /\ V (mul a b) = (V a * V b) mod p.
+
+  Lemma shiftr1_odd e : 0 <= e -> e = 2 * Z.shiftr e 1 + (if Z.odd e then 1 else 0) /\ 0 <= Z.shiftr e 1.
+  Proof.
+    intros He. rewrite <- Z.div2_spec. split; [apply Zdiv2_odd_eqn|]. rewrite Z.div2_div. apply Z.div_pos; lia.
+  Qed.
+
+  Lemma pow_lsb_spec n : forall a x e, can a -> can x -> 0 <= e < 2 ^ Z.of_nat n ->
+    can (pow_lsb mul n a x e) /\ V (pow_lsb mul n a x e) = (V a * V x ^ e) mod p.
+  Proof.
+    induction n as [|n IH]; intros a x e Ha Hx He.
+    - change (2 ^ Z.of_nat 0) with 1 in He. assert (e = 0) by lia. subst e. cbn [pow_lsb]. split; [exact Ha|].
+      rewrite Z.pow_0_r, Z.mul_1_r. symmetry. apply Z.mod_small. apply HV. exact Ha.
+    - cbn [pow_lsb]. destruct (shiftr1_odd e ltac:(lia)) as [Ee Hh]. set (h := Z.shiftr e 1) in *.
+      rewrite Nat2Z.inj_succ in He. rewrite Z.pow_succ_r in He by lia.
+      destruct (Hmul x x Hx Hx) as [Cxx Vxx].
+      assert (Hh2 : 0 <= h < 2 ^ Z.of_nat n) by (destruct (Z.odd e); lia).
+      destruct (Z.odd e).
+      + destruct (Hmul a x Ha Hx) as [Cax Vax].
+        destruct (IH (mul a x) (mul x x) h Cax Cxx Hh2) as [C1 V1]. split; [exact C1|]. rewrite V1, Vax, Vxx.
+        change (eqm p ((V a * V x) mod p * ((V x * V x) mod p) ^ h) (V a * V x ^ e)).
+        rewrite !mod_eqm. rewrite Ee. rewrite Z.pow_add_r, Z.pow_1_r by lia. rewrite Z.pow_mul_r by lia.
+        rewrite Z.pow_2_r. replace (V a * V x * (V x * V x) ^ h) with (V a * ((V x * V x) ^ h * V x)) by ring. reflexivity.
+      + destruct (IH a (mul x x) h Ha Cxx Hh2) as [C1 V1]. split; [exact C1|]. rewrite V1, Vxx.
+        change (eqm p (V a * ((V x * V x) mod p) ^ h) (V a * V x ^ e)).
+        rewrite !mod_eqm. rewrite Ee. rewrite Z.add_0_r. rewrite Z.pow_mul_r by lia. rewrite Z.pow_2_r. reflexivity.
+  Qed.
+
+  Lemma pow_lsb_zero n : forall a x, pow_lsb mul n a x 0 = a.
+  Proof. induction n as [|n IH]; intros a x; cbn [pow_lsb]; [reflexivity|]. cbn [Z.odd Z.shiftr Z.shiftl]. apply IH. Qed.
+  Lemma pow_lsb_stop_eq n : forall a x e, pow_lsb_stop mul n a x e = pow_lsb mul n a x e.
+  Proof.
+    induction n as [|n IH]; intros a x e; cbn [pow_lsb pow_lsb_stop]; [reflexivity|].
+    destruct (Z.eqb_spec e 0) as [->|N]; [|apply IH]. cbn [Z.odd Z.shiftr Z.shiftl]. symmetry. apply pow_lsb_zero.
+  Qed.
+End PowLoop.
+
+(* ------------------------------------------------------------------ rmint<K, MG_ACTIVE> *)
+Section MGAProofs.
+  Variable k : nat.
+  Variable p : Z.
+  Hypothesis HM : RecMod k p.
+  Local Notation B := (Bk k).
+  Local Notation M := (mga_init_module k p).
+  Local Notation p1 := (arazi_qi k ((- p) mod B)).
+  Local Notation fm := (from_mg B p p1).
+  Local Notation V := (mga_get_ruint k M).
+  Local Notation can := (canon p).
+
+  Let Hp : 1 < p < B. Proof. apply HM. Qed.
+  Let Hp1 : (p * p1 + 1) mod B = 0. Proof. apply (p1_spec k p HM). Qed.
+
+  Lemma Bp_nonzero : B mod p <> 0.
+  Proof.
+    intros E. pose proof (BBi k p p1 Hp1) as H.
+    assert (E' : eqm p B 0) by (unfold eqm; rewrite E; symmetry; apply Z.mod_0_l; lia).
+    assert (H2 : eqm p (0 * Binv B p p1) 1).
+    { transitivity (B * Binv B p p1); [apply mul_eqm; [symmetry; exact E' | reflexivity] | exact H]. }
+    rewrite Z.mul_0_l in H2. unfold eqm in H2. rewrite Z.mod_0_l, Z.mod_1_l in H2 by lia. discriminate.
+  Qed.
+
+  Lemma mga_V_fm a : can a -> V a = fm a.
+  Proof. intros Ha. unfold mga_get_ruint, mga_reduction. cbn [g_p g_p1 mga_init_module]. apply (red_can_fm k p p1 Hp Hp1 a Ha). Qed.
+
+  Lemma mga_to_mg_ok x : can (mga_to_mg k M x) /\ V (mga_to_mg k M x) = x mod p.
+  Proof.
+    unfold mga_to_mg. cbn [g_p mga_init_module]. split; [apply (mod_can k p Hp)|].
+    rewrite mga_V_fm by (apply (mod_can k p Hp)). apply (fm_to_mg k p p1 Hp1).
+  Qed.
+
+  Lemma mga_mul_ok b c : can b -> can c -> can (mga_mul k M b c) /\ V (mga_mul k M b c) = (V b * V c) mod p.
+  Proof.
+    intros Hb Hc. unfold mga_mul, mga_reduction. cbn [g_p g_p1 mga_init_module].
+    rewrite (red_mul_fm k p p1 Hp Hp1 b c Hb Hc). split; [apply (fm_can k p p1 Hp)|].
+    rewrite (mga_V_fm (fm (b * c))) by (apply (fm_can k p p1 Hp)). rewrite (mga_V_fm b Hb), (mga_V_fm c Hc). apply fm_fm_mul.
+  Qed.
+  Lemma mga_square_ok b : can b -> can (mga_square k M b) /\ V (mga_square k M b) = (V b * V b) mod p.
+  Proof. intros Hb. exact (mga_mul_ok b b Hb Hb). Qed.
+
+  Lemma mga_add_ok b c : can b -> can c -> can (mga_add k M b c) /\ V (mga_add k M b c) = (V b + V c) mod p.
+  Proof.
+    intros Hb Hc. unfold mga_add. cbn [g_p mga_init_module]. rewrite (rm_add_raw k p Hp b c Hb Hc).
+    split; [apply (mod_can k p Hp)|]. rewrite (mga_V_fm ((b + c) mod p)) by (apply (mod_can k p Hp)).
+    rewrite (mga_V_fm b Hb), (mga_V_fm c Hc). apply fm_add.
+  Qed.
+  Lemma mga_sub_ok b c : can b -> can c -> can (mga_sub k M b c) /\ V (mga_sub k M b c) = (V b - V c) mod p.
+  Proof.
+    intros Hb Hc. unfold mga_sub. cbn [g_p mga_init_module]. rewrite (rm_sub_raw k p Hp b c Hb Hc).
+    split; [apply (mod_can k p Hp)|]. rewrite (mga_V_fm ((b - c) mod p)) by (apply (mod_can k p Hp)).
+    rewrite (mga_V_fm b Hb), (mga_V_fm c Hc). apply fm_sub.
+  Qed.
+  Lemma mga_subin_ok b c : can b -> can c -> can (mga_subin k M b c) /\ V (mga_subin k M b c) = (V b - V c) mod p.
+  Proof.
+    intros Hb Hc. unfold mga_subin. cbn [g_p mga_init_module]. rewrite (rm_subin_raw k p Hp b c Hb Hc).
+    split; [apply (mod_can k p Hp)|]. rewrite (mga_V_fm ((b - c) mod p)) by (apply (mod_can k p Hp)).
+    rewrite (mga_V_fm b Hb), (mga_V_fm c Hc). apply fm_sub.
+  Qed.
+  Lemma mga_neg_ok b : can b -> can (mga_neg k M b) /\ V (mga_neg k M b) = (- V b) mod p.
+  Proof.
+    intros Hb. unfold mga_neg. cbn [g_p mga_init_module]. rewrite (rm_neg_raw k p Hp b Hb).
+    split; [apply (mod_can k p Hp)|]. rewrite (mga_V_fm ((- b) mod p)) by (apply (mod_can k p Hp)).
+    rewrite (mga_V_fm b Hb). apply fm_opp.
+  Qed.
+  Lemma mga_addmul_ok a b c : can a -> can b -> can c ->
+    can (mga_addmul k M a b c) /\ V (mga_addmul k M a b c) = (V a + V b * V c) mod p.
+  Proof.
+    intros Ha Hb Hc. destruct (mga_mul_ok b c Hb Hc) as [Cm Vm]. unfold mga_addmul. cbn [g_p mga_init_module].
+    destruct (mga_add_ok a (mga_mul k M b c) Ha Cm) as [C2 V2]. unfold mga_add in *. cbn [g_p mga_init_module] in *.
+    split; [exact C2|]. rewrite V2, Vm. apply Z.add_mod_idemp_r. lia.
+  Qed.
+
+  Lemma V_can a : can a -> can (V a).
+  Proof. intros Ha. rewrite (mga_V_fm a Ha). apply fm_can. lia. Qed.
+
+  (* inverse and division *)
+  Lemma mga_inv_ok b : can b -> Z.gcd b p = 1 ->
+    can (mga_inv k M b) /\ (V (mga_inv k M b) * V b) mod p = 1.
+  Proof.
+    intros Hb Hg. unfold mga_inv. destruct (mga_to_mg_ok (inv_mod B (mga_reduction k M b) (g_p M))) as [C1 V1].
+    split; [exact C1|]. rewrite V1. cbn [g_p mga_init_module].
+    change (mga_reduction k M b) with (V b).
+    assert (Cv : can (V b)) by (apply V_can; exact Hb).
+    assert (Gv : Z.gcd (V b) p = 1) by (rewrite (mga_V_fm b Hb); apply gcd_fm; [lia | apply (BBi k p p1 Hp1) | exact Hg]).
+    destruct (inv_mod_spec B p (V b) Hp Cv Gv) as [Ci Ei].
+    rewrite Z.mul_mod_idemp_l by lia. exact Ei.
+  Qed.
+
+  Lemma mga_div_ok b c : can b -> can c -> Z.gcd c p = 1 ->
+    can (mga_div k M b c) /\ (V (mga_div k M b c) * V c) mod p = V b.
+  Proof.
+    intros Hb Hc Hg. destruct (mga_inv_ok c Hc Hg) as [Ci Ei]. unfold mga_div. cbv zeta.
+    destruct (Z.eqb_spec (mga_inv k M c) 0) as [E0|N0].
+    - exfalso. rewrite E0 in Ei. rewrite (mga_V_fm 0) in Ei by (unfold canon; lia). rewrite from_mg_0 in Ei.
+      rewrite Z.mul_0_l in Ei. rewrite Z.mod_0_l in Ei by lia. discriminate.
+    - destruct (mga_mul_ok b (mga_inv k M c) Hb Ci) as [Cm Vm]. split; [exact Cm|]. rewrite Vm.
+      rewrite Z.mul_mod_idemp_l by lia. replace (V b * V (mga_inv k M c) * V c) with (V b * (V (mga_inv k M c) * V c)) by ring.
+      rewrite <- Z.mul_mod_idemp_r by lia. rewrite Ei. rewrite Z.mul_1_r. apply Z.mod_small. apply V_can. exact Hb.
+  Qed.
+
+  (* constructors: every way in gives the residue of the source value *)
+  Lemma mga_ctor_ok :
+    (forall c, can (mga_of_ruint k M c) /\ V (mga_of_ruint k M c) = c mod p) /\
+    (forall c, can (mga_of_unsigned k M c) /\ V (mga_of_unsigned k M c) = c mod p) /\
+    (forall c, can (mga_of_mgi k M c) /\ V (mga_of_mgi k M c) = c mod p) /\
+    (forall b, can (mga_of_signed k M b) /\ V (mga_of_signed k M b) = b mod p) /\
+    (forall c, can (mga_of_rint k M c) /\ V (mga_of_rint k M c) = c mod p).
+  Proof.
+    split; [intros c; apply mga_to_mg_ok|]. split; [intros c; apply mga_to_mg_ok|]. split; [intros c; apply mga_to_mg_ok|].
+    split.
+    - intros b. unfold mga_of_signed. cbv zeta. cbn [g_p mga_init_module].
+      match goal with |- context [mga_to_mg k M ?v] => destruct (mga_to_mg_ok v) as [C1 V1]; split; [exact C1|]; rewrite V1 end.
+      pose proof (Z.mod_pos_bound (Z.abs b) p ltac:(lia)) as Hr.
+      destruct (Z.ltb_spec b 0).
+      + rewrite (modB_small B) by lia. rewrite Z.abs_neq by lia.
+        change (eqm p (p - (- b) mod p) b). rewrite (mod_eqm p (- b)). replace (p - - b) with (p * 1 + b) by ring.
+        rewrite (eqm_mul_n_l p 1). reflexivity.
+      + rewrite Z.abs_eq by lia. apply Z.mod_mod. lia.
+    - intros c. unfold mga_of_rint. destruct (mga_to_mg_ok (Z.abs c)) as [C1 V1].
+      destruct (Z.ltb_spec c 0).
+      + destruct (mga_neg_ok _ C1) as [C2 V2]. unfold mga_neg in *. cbn [g_p mga_init_module] in *. split; [exact C2|].
+        rewrite V2, V1. rewrite Z.abs_neq by lia. change (eqm p (- ((- c) mod p)) c). rewrite (mod_eqm p (- c)).
+        rewrite Z.opp_involutive. reflexivity.
+      + split; [exact C1|]. rewrite V1. rewrite Z.abs_eq by lia. reflexivity.
+  Qed.
+
+  (* exponentiation by a machine word (rmgexp.h, UDItype) *)
+  Lemma mga_r_ok : can (g_r M) /\ V (g_r M) = 1.
+  Proof.
+    cbn [g_r mga_init_module]. rewrite (r_spec k p Hp). split; [apply (mod_can k p Hp)|].
+    rewrite mga_V_fm by apply (mod_can k p Hp). rewrite (from_mg_B B p p1) by (assumption || (pose proof (Bk_pos k); lia)).
+    apply Z.mod_1_l. lia.
+  Qed.
+  Lemma mga_exp_u_ok b e : can b -> 0 <= e < 2 ^ 64 ->
+    can (mga_exp_u k M b e) /\ V (mga_exp_u k M b e) = (V b ^ e) mod p.
+  Proof.
+    intros Hb He. unfold mga_exp_u. rewrite pow_lsb_stop_eq. destruct mga_r_ok as [Cr Vr].
+    destruct (pow_lsb_spec p (mga_mul k M) V can (fun a Ha => V_can a Ha) mga_mul_ok 64 (g_r M) b e Cr Hb He) as [C1 V1].
+    split; [exact C1|]. rewrite V1, Vr. rewrite Z.mul_1_l. reflexivity.
+  Qed.
+End MGAProofs.
